@@ -148,6 +148,11 @@ def check_meaning(ctx, backend, e, text):
             if mp is not None:
                 items = list(u.query.items())
                 ctx.check(items == mp, "query.items() differs from the pairs of the supplied query", observed=items, expected=mp, entry=e)
+    elif ent.kind == "qparse":
+        mp = model_pairs(t)
+        if mp is not None:
+            items = list(u.query.items())
+            ctx.check(items == mp, "query.items() differs from the pairs of the supplied query", observed={"items": items, "raw": raw}, expected=mp, entry=e)
     elif ent.kind == "qstring":
         a = decode_bytes(raw, plus_space=True)
         b = t.replace("+", " ").encode()
@@ -163,7 +168,7 @@ def check_meaning(ctx, backend, e, text):
 
 CHECKS = {"meaning": check_meaning}
 
-NAMES = [e.name for e in entry.E if e.comp in ("user", "password", "path", "query", "fragment", "qpair") and e.kind in ("requote", "quote", "qstring")]
+NAMES = [e.name for e in entry.E if e.comp in ("user", "password", "path", "query", "fragment", "qpair") and e.kind in ("requote", "quote", "qstring", "qparse")]
 
 
 def generated(ctx, backend, n, part, nparts):
